@@ -112,27 +112,29 @@ def descOfToken (t : String) : Option Desc :=
 def handle : Handler := fun op a => do
   match op with
   | "posnum" =>
-    -- {schema, orc:[…], vz, vx}
+    -- {schema, orc:[…], vz, vx, vc}
     let kvs ← kvsOf (← field a "schema")
     let orc ← asList decAns (a.getD "orc" (.arr []))
     let vz ← decVariant (a.getD "vz" .null)
     let vx ← decVariant (a.getD "vx" .null)
-    let r := positiveNumber vz vx kvs { orc := orc, seen := [] }
+    let vc ← decVariant (a.getD "vc" .null)
+    let r := positiveNumber vz vx vc kvs { orc := orc, seen := [] }
     let vs ← asArr (a.getD "judge" (.arr []))
     match encR r with
     | .obj fields => return .obj (fields ++ [("valid", .arr (vs.map fun v => .bool (validF 64 {} (.obj kvs) (decOrd v))))])
     | j => return j
   | "cover" =>
-    -- {schema, orc:[…], vz, vx, location, pos, neg, fuel?}
+    -- {schema, orc:[…], vz, vx, vc, vl, va, vt, vm, vf, location, pos, neg, fuel?}   (variant sites: see `Vs`)
     let schema := decOrd (← field a "schema")
     let orc ← asList decAns (a.getD "orc" (.arr []))
-    let vz ← decVariant (a.getD "vz" .null)
-    let vx ← decVariant (a.getD "vx" .null)
+    let vs : Vs := ⟨← decVariant (a.getD "vz" .null), ← decVariant (a.getD "vx" .null), ← decVariant (a.getD "vc" .null),
+                    ← decVariant (a.getD "vl" .null), ← decVariant (a.getD "va" .null), ← decVariant (a.getD "vt" .null),
+                    ← decVariant (a.getD "vm" .null), ← decVariant (a.getD "vf" .null)⟩
     let loc ← asStr (a.getD "location" (.str "body"))
     let pos ← asBool (a.getD "pos" (.bool true))
     let neg ← asBool (a.getD "neg" (.bool true))
     let fuel := match a.getD "fuel" .null with | .num m 0 => m.toNat | _ => 12
-    return encR (coverTop fuel ⟨vz, vx⟩ ⟨loc, pos, neg, []⟩ schema { orc := orc, seen := [] })
+    return encR (coverTop fuel vs ⟨loc, pos, neg, []⟩ schema { orc := orc, seen := [] })
   | "cases" =>
     let vb ← decVariant (a.getD "vb" .null)
     let inp : OpIn := ⟨← asList decParam (← field a "params"), ← asBool (← field a "hasBody"),
